@@ -23,6 +23,7 @@ type fsNode struct {
 	data  []value
 	gone  bool
 	id    int
+	muts  int // number of mutating operations on this file (create, write, truncate)
 }
 
 type openFile struct {
@@ -38,8 +39,9 @@ type openFile struct {
 
 type FS struct {
 	nodes  []*fsNode
-	dirs   map[string]bool // concrete directories
-	ops    []string        // log of mutating operations
+	links  map[string]string // symbolic links: absolute link path -> absolute target (directories)
+	dirs   map[string]bool   // concrete directories
+	ops    []string          // log of mutating operations
 	nMut   int
 	faults bool
 	open   map[*value]*openFile
@@ -85,7 +87,45 @@ func (i *interpreter) splitPath(p value) (string, value) {
 	if last < 0 {
 		dir = "."
 	}
-	return cleanDir(dir), mkstr(bs[last+1:])
+	return i.path.fs.canon(dir), mkstr(bs[last+1:])
+}
+
+// canon cleans a directory path and follows the symbolic links on it.
+func (fs *FS) canon(d string) string {
+	d = cleanDir(d)
+	if len(fs.links) == 0 || d == "" || d[0] != '/' {
+		return d
+	}
+	for hops := 0; hops < 16; hops++ {
+		changed := false
+		cur := ""
+		rest := d[1:]
+		for rest != "" {
+			k := 0
+			for k < len(rest) && rest[k] != '/' {
+				k++
+			}
+			cur += "/" + rest[:k]
+			if k < len(rest) {
+				rest = rest[k+1:]
+			} else {
+				rest = ""
+			}
+			if t, ok := fs.links[cur]; ok {
+				d = t
+				if rest != "" {
+					d = t + "/" + rest
+				}
+				d = cleanDir(d)
+				changed = true
+				break
+			}
+		}
+		if !changed {
+			return d
+		}
+	}
+	return d
 }
 
 func cleanDir(d string) string {
@@ -155,7 +195,7 @@ func (fs *FS) isDirPath(i *interpreter, dir string, name value) bool {
 		if s == "" {
 			full = dir
 		}
-		return fs.dirs[cleanDir(full)]
+		return fs.dirs[fs.canon(full)]
 	}
 	return false
 }
@@ -168,7 +208,7 @@ func (fs *FS) logOp(format string, args ...interface{}) {
 }
 
 func (fs *FS) mkdirAll(dir string) {
-	dir = cleanDir(dir)
+	dir = fs.canon(dir)
 	for d := dir; ; {
 		if fs.dirs[d] {
 			break
@@ -190,7 +230,7 @@ func (fs *FS) mkdirAll(dir string) {
 func nameTooLong(name value) bool { return strLen(name) > 255 }
 
 func (fs *FS) create(dir string, name value) *fsNode {
-	n := &fsNode{dir: dir, name: name, id: fs.nextID}
+	n := &fsNode{dir: dir, name: name, id: fs.nextID, muts: 1}
 	fs.nextID++
 	fs.nodes = append(fs.nodes, n)
 	fs.logOp("create %s/%s", dir, toString(name))
